@@ -26,6 +26,18 @@ type failStmt struct {
 }
 
 func longStr(r *core.Rand, n int) string {
+	if n >= 2 && r.Chance(1, 3) {
+		// n BYTES of two- and three-byte letters: far fewer characters than
+		// bytes (limits are about bytes)
+		var sb strings.Builder
+		for sb.Len()+3 <= n {
+			sb.WriteString([]string{"é", "ü", "ж", "λ", "語", "€"}[r.Intn(6)])
+		}
+		for sb.Len() < n {
+			sb.WriteByte(byte('a' + r.Intn(26)))
+		}
+		return sb.String()
+	}
 	b := make([]byte, n)
 	for i := range b {
 		b[i] = byte('a' + r.Intn(26))
@@ -288,7 +300,7 @@ var c14Causes = []string{model.FailNoTable, model.FailColCount, model.FailType, 
 	"update-" + model.FailSize, "update-" + model.FailType, "update-" + model.FailRange, "where-type", "create-length-out-of-range", "repeated-column", "create-name-too-long"}
 
 func checkC14(c *core.Ctx) []core.Floor {
-	c.Rule = "states from seeded histories (splits, tombstones); then failing INSERT/UPDATE/DELETE/CREATE TABLE statements for every cause the property names (plus column lists that name a column twice with a valid and an invalid value), with the invalid row at every position k of n-row INSERTs (n<=8) and UPDATEs whose k-th matching row is the one that overflows; full-database snapshot (SELECT * of all tables + catalog) before, immediately after, after flush+close+new process, and after crash+recovery of an image taken right after the failure; then 3 valid statements. A further third as many cases end with statements of unusual but legal shapes that the unchanged code ACCEPTS (a column named twice in CREATE TABLE, no columns, SET of one column twice, partial or repeated column lists, and single statements that move over a megabyte of row images: a 3000-row INSERT of near-limit rows, an UPDATE of all of them, a DELETE of 45000 rows, ...): whatever they do is not judged - unless they return an error, in which case the dump before, the dump after and the dump after close + reopen have to be identical. Distinct = (history, failing statement); non-trivial = the failing row was not the first (k > 1) or the cause is not row-related."
+	c.Rule = "states from seeded histories (splits, tombstones); then failing INSERT/UPDATE/DELETE/CREATE TABLE statements for every cause the property names (plus column lists that name a column twice with a valid and an invalid value), with the invalid row at every position k of n-row INSERTs (n<=8) and UPDATEs whose k-th matching row is the one that overflows; full-database snapshot (SELECT * of all tables + catalog) before, immediately after, after flush+close+new process, and after crash+recovery of an image taken right after the failure; then 3 valid statements. A further third as many cases end with statements of unusual but legal shapes that the unchanged code ACCEPTS (a column named twice in CREATE TABLE, no columns, SET of one column twice, partial or repeated column lists, and single statements that move over a megabyte of row images: a 3000-row INSERT of near-limit rows, an UPDATE of all of them, a DELETE of 38000 rows, ...): whatever they do is not judged - unless they return an error, in which case the dump before, the dump after and the dump after close + reopen have to be identical. Distinct = (history, failing statement); non-trivial = the failing row was not the first (k > 1) or the cause is not row-related."
 	c.Assume = []string{"which error value is returned is not judged, only that one is", "row ids may have gaps after a refused row"}
 	drv := mustDriver(c, false)
 	n := 300
@@ -663,7 +675,7 @@ func runC14Maybe(c *core.Ctx, drv string, idx int) {
 	if idx%50 == 7 {
 		// one huge statement (over a megabyte of row images): a 3000-row
 		// INSERT of rows near the size limit, an UPDATE of all of them, or a
-		// DELETE without WHERE over 45000 short rows. Accepted by the
+		// DELETE without WHERE over 38000 short rows. Accepted by the
 		// unchanged code; should a size limit ever refuse one of them, it has
 		// to do so before the first row is touched
 		big := fmt.Sprintf("huge%d", idx)
@@ -682,16 +694,18 @@ func runC14Maybe(c *core.Ctx, drv string, idx int) {
 			s.sql("CREATE TABLE " + big + " (k INT, p VARCHAR(255), q VARCHAR(255))")
 			for from := 0; from < 3000; from += 500 {
 				s.sql("INSERT INTO " + big + " VALUES " + wide(from, 500, "p"))
+				s.k("flush")
 			}
 			q = "UPDATE " + big + " SET p = '" + strings.Repeat("u", 250) + "'"
 		default:
 			s.sql("CREATE TABLE " + big + " (k INT)")
-			for from := 0; from < 45000; from += 5000 {
+			for from := 0; from < 38000; from += 3800 {
 				var p []string
-				for i := 0; i < 5000; i++ {
+				for i := 0; i < 3800; i++ {
 					p = append(p, fmt.Sprintf("(%d)", from+i))
 				}
 				s.sql("INSERT INTO " + big + " VALUES " + strings.Join(p, ", "))
+				s.k("flush") // (the timer is off: without this the cache fills up with changed pages)
 			}
 			q = "DELETE FROM " + big
 		}
@@ -729,6 +743,12 @@ func runC14Maybe(c *core.Ctx, drv string, idx int) {
 	}
 	if res.Err == "" {
 		c.Count("odd_statements_accepted", 1)
+		return
+	}
+	if strings.Contains(res.Err, "cache is full") {
+		// refused for lack of clean pages in the cache: not one of the causes
+		// the property names (C16 states the precondition that covers it)
+		c.Count("odd_statements_refused_because_the_cache_was_full_not_judged", 1)
 		return
 	}
 	c.Count("odd_statements_refused", 1)
